@@ -24,6 +24,7 @@ type fsState struct {
 	crashOn   bool
 	faultsOn  bool
 	partialOn bool
+	tmpSeq    int
 	crashed   bool
 	log       []string
 }
@@ -508,6 +509,52 @@ func init() {
 				f.data = f.data[:n:n]
 			}
 			return e.zero(e.errT())
+		})
+	})
+}
+
+func init() {
+	extraIntrinsics = append(extraIntrinsics, func(w *World) {
+		// os.CreateTemp(dir, pattern): a fresh name in dir (the model replaces the random part
+		// by a counter; uniqueness is what callers rely on).
+		w.reg("os.CreateTemp", func(e *Exec, fn *ssa.Function, a []Value) Value {
+			dir := cleanPath(e.argStr(a[0], "dir"))
+			pat := e.argStr(a[1], "pattern")
+			fs := e.fsm()
+			fs.tmpSeq++
+			name := strings.Replace(pat, "*", "tmp"+itoa(fs.tmpSeq), 1)
+			if !strings.Contains(pat, "*") {
+				name = pat + "tmp" + itoa(fs.tmpSeq)
+			}
+			if dir == "." || dir == "" {
+				dir = "/tmp"
+				fs.files["/tmp"] = &fsFile{isDir: true}
+			}
+			f, err := e.fsOpen(dir+"/"+name, oRDWR|oCREATE|oEXCL)
+			return TupleV{f, err}
+		})
+		w.reg("os.MkdirTemp", func(e *Exec, fn *ssa.Function, a []Value) Value {
+			fs := e.fsm()
+			fs.tmpSeq++
+			p := "/tmp/dir" + itoa(fs.tmpSeq)
+			fs.files["/tmp"] = &fsFile{isDir: true}
+			fs.files[p] = &fsFile{isDir: true}
+			return TupleV{e.strConst(p), e.zero(e.errT())}
+		})
+		w.reg("os.Getwd", func(e *Exec, fn *ssa.Function, a []Value) Value {
+			return TupleV{e.strConst("/cwd"), e.zero(e.errT())}
+		})
+		w.reg("os.Chmod", zeroResult)
+		w.reg("(*os.File).Chmod", zeroResult)
+	})
+}
+
+func init() {
+	extraIntrinsics = append(extraIntrinsics, func(w *World) {
+		w.reg(VerifPkgPath+".FSWriteFile", func(e *Exec, fn *ssa.Function, a []Value) Value {
+			p := cleanPath(e.argStr(a[0], "path"))
+			e.fsm().files[p] = &fsFile{data: e.sliceBytes(a[1].(SliceV))}
+			return nil
 		})
 	})
 }
